@@ -1018,11 +1018,21 @@ func VerifC07Commit() {
 	if r.Status != nfstypes.NFS3_OK {
 		return
 	}
+	// one or two unstable writes are outstanding when the COMMIT arrives
+	nw := verifrt.Choose("nwrites", 1, 2)
+	if nw == 2 {
+		r1 := w.nfs.NFSPROC3_WRITE(nfstypes.WRITE3args{File: h, Offset: 4096, Count: 1, Stable: nfstypes.UNSTABLE, Data: data})
+		if r1.Status != nfstypes.NFS3_OK {
+			return
+		}
+		verifrt.Assert(r1.Resok.Verf == r.Resok.Verf, "verifier-stable-within-an-instance")
+		verifrt.Cover("two-writes")
+	}
 	m1 := vMonitor()
 	cm := w.nfs.NFSPROC3_COMMIT(nfstypes.COMMIT3args{File: h, Offset: 0, Count: 0})
 	m2 := vMonitor()
 	verifrt.Assert(cm.Status == nfstypes.NFS3_OK, "commit-ok")
-	verifrt.Assert(m1.appends == 1 && m2.durable, "mon:commit-flushes-every-earlier-append")
+	verifrt.Assert(m1.appends == nw && m2.durable, "mon:commit-flushes-every-earlier-append")
 	verifrt.Assert(cm.Resok.Verf == r.Resok.Verf, "commit-and-write-verifier-agree")
 	// a second server instance (a restart on the same disk) answers with another verifier
 	nfs2 := MakeNfs(w.d)
